@@ -130,7 +130,38 @@ def c11hsm : P String := do
     [if localAncestorDecl h [] q then 1 else 0]
   pure (joinNats out)
 
+/-- `c11trans <states> <tables> <queries (trigger?, src, dst)>` → per query the found transitions
+(scope, event, source, dest) of `getTransitionsH` -/
+def c11trans : P String := do
+  let states ← list pathP
+  let tables ← list (do
+    let pre ← pathP
+    let evs ← list (do
+      let e ← nameP
+      let ts ← list (do let s ← pathP; let d ← opt pathP; pure (s, d))
+      pure (e, ts))
+    pure (pre, evs))
+  let queries ← list (do let t ← optNameP; let s ← pathP; let d ← pathP; pure (t, s, d))
+  let h : HT := { states, tables }
+  let encPath (p : Path) : List Nat := encL encName p
+  let out := queries.flatMap fun q =>
+    encL (fun (f : FoundT) => encPath f.scope ++ encName f.event ++ encPath f.source ++
+      (match f.dest with | none => [0] | some d => 1 :: encPath d)) (getTransitionsH h q.1 q.2.1 q.2.2)
+  pure (joinNats out)
+
+/-- `c11wrap <override> <namespace (name, kind)> <steps (name, isStep, restEmpty)>` → `0` ok | `1` AttributeError | `2` AssertionError -/
+def c11wrap : P String := do
+  let override ← bool
+  let ns ← list (do
+    let n ← nameP; let k ← nat
+    pure (n, match k with | 0 => TopAttr.missing | 1 => .user | 2 => .userNone | _ => .wrapper))
+  let steps ← list (do let n ← nameP; let i ← bool; let r ← bool; pure ({ name := n, isStep := i, restEmpty := r } : WStep))
+  pure (match runWrap override ns steps with
+    | .ok _ => "0"
+    | .error .attributeError => "1"
+    | .error .assertionError => "2")
+
 def hC11 : List (String × Handler) :=
-  [("c11flat", run c11flat), ("c11hsm", run c11hsm)]
+  [("c11flat", run c11flat), ("c11hsm", run c11hsm), ("c11trans", run c11trans), ("c11wrap", run c11wrap)]
 
 end Handlers
